@@ -30,6 +30,8 @@ enum Op {
     Reset,
     ResetToStart,
     Reserve { n: usize },
+    /// alloc_try_with(_mut) whose closure returns Err; ty selects the payload size
+    TryErr { mutable: bool, ty: u8 },
     End,
 }
 
@@ -58,6 +60,7 @@ struct St {
     fail_rate: u64,
     big: bool,
     xlines: usize,
+    dead: bool,
 }
 
 fn pattern(seed: u64, i: usize) -> u8 {
@@ -150,7 +153,8 @@ impl St {
                 89..=92 if self.depth > 0 => Op::ScopeExit { panic: r.coin(1, 4) },
                 93..=94 if top_level => Op::Reset,
                 95 if top_level => Op::ResetToStart,
-                96..=99 => Op::Reserve { n: match r.below(4) { 0 => r.below(64) as usize, 1 => r.below(5000) as usize, 2 => r.below(100000) as usize, _ => r.below(2000) as usize } },
+                96..=97 => Op::TryErr { mutable: r.coin(1, 2), ty: r.below(6) as u8 },
+                98..=99 => Op::Reserve { n: match r.below(4) { 0 => r.below(64) as usize, 1 => r.below(5000) as usize, 2 => r.below(100000) as usize, _ => r.below(2000) as usize } },
                 _ => continue,
             };
             return (fail, op);
@@ -559,6 +563,61 @@ where
     }
 }
 
+fn try_err<A, S>(st: &mut St, scope: &mut BumpScope<'_, A, S>, fail: bool, mutable: bool, ty: u8)
+where
+    A: bump_scope::BaseAllocator<S::GuaranteedAllocated>,
+    S: bump_scope::settings::BumpAllocatorSettings,
+{
+    flush(st);
+    if fail {
+        let _ = writeln!(st.out, "FAIL");
+        with_pool(|p| p.fail_next = true);
+    }
+    let before_alloc = scope.stats().allocated();
+    let before_pos = scope.stats().current_chunk().map(|c| c.bump_position().as_ptr() as usize);
+    let before_count = scope.stats().count();
+    macro_rules! go {
+        ($t:ty) => {{
+            let (sz, al) = (core::mem::size_of::<Result<$t, u32>>(), core::mem::align_of::<Result<$t, u32>>());
+            let _ = writeln!(st.out, "O TW 0 {} {sz} {al}", mutable as u8);
+            let r: Result<Result<(), u32>, AllocError> = if mutable {
+                scope.try_alloc_try_with_mut::<$t, u32>(|| Err(7)).map(|r| r.map(|_| ()))
+            } else {
+                scope.try_alloc_try_with::<$t, u32>(|| Err(7)).map(|r| r.map(|_| ()))
+            };
+            r
+        }};
+    }
+    let r = match ty {
+        0 => go!(u32),
+        1 => go!([u64; 3]),
+        2 => go!([u8; 100]),
+        3 => go!([u8; 1000]),
+        4 => go!([u64; 700]),
+        _ => go!([u8; 40000]),
+    };
+    st.epoch += 1;
+    events_lines(st);
+    match r {
+        Ok(Err(7)) => {
+            let _ = writeln!(st.out, "R U");
+            // C03: an Err from the closure leaves allocated bytes and position exactly as before
+            let after_alloc = scope.stats().allocated();
+            let after_pos = scope.stats().current_chunk().map(|c| c.bump_position().as_ptr() as usize);
+            if before_pos.is_some() && (after_alloc != before_alloc || after_pos != before_pos) {
+                st.x("scope-exit-did-not-restore-position", &format!("alloc_try_with{} returning Err: allocated {before_alloc} -> {after_alloc}, position {before_pos:?} -> {after_pos:?}", if mutable { "_mut" } else { "" }));
+            }
+            if scope.stats().count() < before_count {
+                st.x("scope-exit-released-a-chunk", "");
+            }
+        }
+        Ok(_) => { st.x("panic", "alloc_try_with returned Ok although the closure returned Err"); }
+        Err(_) => { let _ = writeln!(st.out, "R E"); }
+    }
+    stats_line(st, scope);
+    monitors(st);
+}
+
 /// runs operations on `scope` until a ScopeExit / End; returns true if the exit is by panic
 fn run_scope<A, S>(st: &mut St, scope: &mut BumpScope<'_, A, S>) -> bool
 where
@@ -572,10 +631,30 @@ where
             Op::ScopeExit { panic } => return panic,
             Op::ScopeEnter => scope_enter(st, scope),
             Op::Reset | Op::ResetToStart => {}
-            other => exec(st, scope, fail, &other),
+            Op::TryErr { mutable, ty } => try_err(st, scope, fail, mutable, ty),
+            other => guarded_exec(st, scope, fail, &other),
         }
+        if st.dead { return false; }
     }
 }
+
+fn guarded_exec<A, S>(st: &mut St, scope: &BumpScope<'_, A, S>, fail: bool, op: &Op)
+where
+    A: bump_scope::BaseAllocator<S::GuaranteedAllocated>,
+    S: bump_scope::settings::BumpAllocatorSettings,
+{
+    let stp: *mut St = st;
+    let r = catch_unwind(AssertUnwindSafe(|| exec(unsafe { &mut *stp }, scope, fail, op)));
+    if r.is_err() {
+        let msg = LAST_PANIC.with(|m| m.borrow().clone());
+        st.x("panic", &msg.replace('\n', " "));
+        st.dead = true;
+        st.script = Some(Default::default());
+        st.ops_left = 0;
+    }
+}
+
+thread_local! { static LAST_PANIC: std::cell::RefCell<String> = const { std::cell::RefCell::new(String::new()) }; }
 
 fn scope_enter<A, S>(st: &mut St, scope: &mut BumpScope<'_, A, S>)
 where
@@ -602,6 +681,7 @@ where
         })
     }));
     st.depth -= 1;
+    if st.dead { return; }
     let _ = writeln!(st.out, "O SX 0 {}", r.is_err() as u8);
     st.epoch += 1;
     st.cp_store.truncate(ncp);
@@ -693,8 +773,16 @@ where
                 }
                 stats_line(st, bump.as_scope());
             }
-            other => exec(st, bump.as_scope(), fail, &other),
+            Op::TryErr { mutable, ty } => try_err(st, bump.as_mut_scope(), fail, mutable, ty),
+            other => guarded_exec(st, bump.as_scope(), fail, &other),
         }
+        if st.dead { break; }
+    }
+    if st.dead {
+        // state unknown after a panic inside the crate: do not touch the arena again
+        core::mem::forget(bump);
+        let _ = writeln!(st.out, "END");
+        return;
     }
     // drop: every chunk goes back exactly once
     let _ = writeln!(st.out, "O DROP");
@@ -800,6 +888,7 @@ fn parse_script(path: &str) -> Vec<(usize, u64, u8, u8, (usize, usize), Vec<(boo
                     "RS" => Some(Op::Reset),
                     "R0" => Some(Op::ResetToStart),
                     "RV" => Some(Op::Reserve { n: n(3) }),
+                    "TW" => Some(Op::TryErr { mutable: n(3) == 1, ty: match n(4) { x if x <= 8 => 0, x if x <= 32 => 1, x if x <= 104 => 2, x if x <= 1004 => 3, x if x <= 5608 => 4, _ => 5 } }),
                     _ => None, // F and DROP are issued by the harness itself
                 };
                 if let Some(op) = op { r.5.push((fail, op)); }
@@ -818,10 +907,14 @@ fn main() {
     let ops: usize = arg("--ops", 60);
     let script: String = arg("--script", String::new());
     let only: i64 = arg("--cfg", -1);
-    if arg("--verbose-panics", 0u8) == 0 { std::panic::set_hook(Box::new(|_| {})); }
+    let verbose = arg("--verbose-panics", 0u8) != 0;
+    std::panic::set_hook(Box::new(move |info| {
+        LAST_PANIC.with(|m| *m.borrow_mut() = format!("{info}"));
+        if verbose { eprintln!("{info}"); }
+    }));
     let mut mk = |rng: Rng, script: Option<Vec<(bool, Op)>>, ops: usize, fail_rate: u64, big: bool| St {
         out: String::new(), rng, script: script.map(|v| v.into()), blocks: vec![], next_id: 0, seed_ctr: 0, epoch: 0,
-        cp_store: vec![], next_cp: 0, ops_left: ops, depth: 0, max_depth: 6, fail_rate, big, xlines: 0,
+        cp_store: vec![], next_cp: 0, ops_left: ops, depth: 0, max_depth: 6, fail_rate, big, xlines: 0, dead: false,
     };
     if !script.is_empty() {
         for (idx, sd, og, init, ia, opsv) in parse_script(&script) {
